@@ -46,10 +46,10 @@ static void phr_from_idx(const unsigned idx[16], int li, struct phr *p, int use_
     }
 }
 /* deviations: 0..NM-1 replace token by menu entry; NM unknown; NM+1 empty; NM+2 double the separator before;
- * NM+3 ideographic space before; NM+4 no-break space before; then global ones (position ignored):
+ * NM+3 ideographic space before; NM+4 no-break space before; NM+5..7 non-ASCII junk in front; NM+8..10 malformed UTF-8 at the end; then global ones (position ignored):
  * G0 leading space, G1 trailing space, G2 two trailing spaces, G3 17th token, G4 drop last token, G5 trailing ideographic space */
 static int NM;           /* menu size in use */
-#define NLOCAL (NM + 8)
+#define NLOCAL (NM + 11)
 #define NGLOBAL 6
 static void deviate(struct phr *p, int pos, int d) {
     if (d < NM) strcpy(p->tok[pos], MENU[d]);
@@ -60,6 +60,8 @@ static void deviate(struct phr *p, int pos, int d) {
     else if (d == NM + 4) { if (pos) strcpy(p->sep[pos], "\xC2\xA0"); else strcpy(p->lead, "\xC2\xA0"); }
     else if (d >= NM + 5 && d <= NM + 7) { /* a non-ASCII character glued in front of the token: inverted exclamation mark, combining acute, byte-order mark */
         static const char *J[3] = { "\xC2\xA1", "\xCC\x81", "\xEF\xBB\xBF" }; char t[80]; snprintf(t, sizeof t, "%s%s", J[d - NM - 5], p->tok[pos]); strncpy(p->tok[pos], t, 63); p->tok[pos][63] = 0; }
+    else if (d >= NM + 8 && d <= NM + 10) { /* bytes that are not well-formed UTF-8 at the end of the token: a lone FF, a stray continuation byte, a cut three-byte sequence */
+        static const char *J[3] = { "\xFF", "\x80", "\xE3\x80" }; char t[80]; snprintf(t, sizeof t, "%s%s", p->tok[pos], J[d - NM - 8]); strncpy(p->tok[pos], t, 63); p->tok[pos][63] = 0; }
     else switch (d - NLOCAL) {
         case 0: strcpy(p->lead, " "); break;
         case 1: strcpy(p->trail, " "); break;
@@ -245,7 +247,7 @@ int main(int argc, char **argv) {
         NM = NMENU;
         int DL[80], ndl = 0;
         for (int d = 0; d < NMENU_SMALL; d++) DL[ndl++] = d;
-        for (int d = NM; d < NM + 8; d++) DL[ndl++] = d;
+        for (int d = NM; d < NM + 11; d++) DL[ndl++] = d;
         for (int b = 0; b < NBASE; b++) {
             for (int k = 0; k < npp; k++) for (int i = 0; i < ndl; i++) for (int j = 0; j < ndl; j++) job_add(b, PP[k][0], DL[i], PP[k][1], DL[j]);
             /* a local deviation combined with every global one */
